@@ -2,7 +2,7 @@
     the scalar operations are passed in as an [ops] record by the driver. *)
 From Coq Require Import List Arith Bool.
 From SV Require Import Base.Ops Base.Arr Model.Vec3 Model.Exchange Model.Scene.
-From SV Require Import Model.Brdf.
+From SV Require Import Model.Brdf Model.Frame.
 Require Extraction.
 From Coq Require Import ExtrOcamlBasic.
 Extraction Language OCaml.
@@ -11,4 +11,5 @@ Extraction "model.ml"
   shift_trunc roll init_hist step exchange order_k directed delay_floor delay_ceil
   tilde p2o vis_pairs delay_matrix n_samples e0dir delay0 energy0 src_dist patch_hist
   patchwise mono_of mono direct_val direct_bin
-  norm_weights from_scattering from_directional.
+  norm_weights from_scattering from_directional
+  rot rotT wall_dirs.
